@@ -15,6 +15,7 @@ pub mod numbers;
 pub mod parse_rt;
 pub mod patterns;
 pub mod query;
+pub mod completions;
 pub mod schedules;
 pub mod scoping;
 pub mod sepcomp;
@@ -38,6 +39,7 @@ pub fn all() -> Vec<Box<dyn Family>> {
         Box::new(query::QueryTotal),
         Box::new(query::QueryAgree),
         Box::new(query::HoverAll),
+        Box::new(completions::Completions),
         Box::new(scoping::Scoping),
         Box::new(patterns::Patterns),
         Box::new(evalorder::EvalOrder),
